@@ -16,7 +16,7 @@ TITLE = "Character-escape decodings (XML refs, chr(), unescape(), UTF-16) are ex
 
 XML_MENU = [b"&#65;", b"&#x4a;", b"&#0;", b"&#255;", b"&#xzz;", b"&#256;", b"x", b"&#10;"]
 XML_FAM = Family("c14-xml", [m.decode("latin-1") for m in XML_MENU], {"quick": 6, "thorough": 7})
-UNESC_FAM = Family("c14-unescape", ["%41", "%zz", "%", "%u0041", "+", "a", "%e9", "%0", "%00", "\\", "%2F"], {"quick": 4, "thorough": 5},
+UNESC_FAM = Family("c14-unescape", ["%41", "%zz", "%", "%u0041", "+", "a", "%e9", "%0", "%00", "\\", "%2F", "\"", " ", ")", "("], {"quick": 4, "thorough": 5},
                    wraps=[(b"unescape('", b"')"), (b"x=unescape('", b"');y"), (b"unescape('", b"') unescape('%42')")])
 U16_FAM = Family("c14-utf16", ["a\x00", "\xe9\x00", "\x00\x00", "\x7f\x00", "\x1f\x00", "\xff\x00", "\x09\x00", "a", "\x00",
                                "h\x00t\x00t\x00p\x00:\x00/\x00/\x00"], {"quick": 7, "thorough": 8})
